@@ -637,6 +637,176 @@ def check_constants(ctx, R="C07.const"):
 
 
 
+def _const_value(e):
+    """value of an expression made of numbers and math.pi only, else None"""
+    if isinstance(e, ast.Constant) and isinstance(e.value, (int, float)) and not isinstance(e.value, bool):
+        return float(e.value)
+    if isinstance(e, ast.Attribute) and dotted(e) in ("math.pi", "np.pi", "numpy.pi"):
+        return math.pi
+    if isinstance(e, ast.Name) and e.id == "pi":
+        return math.pi
+    if isinstance(e, ast.Call) and dotted(e.func) in ("math.radians", "radians") and len(e.args) == 1:
+        v = _const_value(e.args[0])
+        return None if v is None else math.radians(v)
+    if isinstance(e, ast.UnaryOp) and isinstance(e.op, (ast.USub, ast.UAdd)):
+        v = _const_value(e.operand)
+        return None if v is None else (-v if isinstance(e.op, ast.USub) else v)
+    if isinstance(e, ast.BinOp) and isinstance(e.op, (ast.Add, ast.Sub, ast.Mult, ast.Div)):
+        a, b = _const_value(e.left), _const_value(e.right)
+        if a is None or b is None or (isinstance(e.op, ast.Div) and b == 0):
+            return None
+        return {ast.Add: a + b, ast.Sub: a - b, ast.Mult: a * b, ast.Div: a / b if b else None}[type(e.op)]
+    return None
+
+
+def _additive_terms(e, sign=1):
+    if isinstance(e, ast.BinOp) and isinstance(e.op, (ast.Add, ast.Sub)):
+        return _additive_terms(e.left, sign) + _additive_terms(e.right, sign if isinstance(e.op, ast.Add) else -sign)
+    return [(sign, e)]
+
+
+def _local_value(fn, e):
+    """follow a local name to the expression of its single assignment in `fn`"""
+    for _ in range(4):
+        if not isinstance(e, ast.Name):
+            return e
+        defs = [a for a in walk_local(fn) if isinstance(a, ast.Assign) and len(a.targets) == 1 and isinstance(a.targets[0], ast.Name) and a.targets[0].id == e.id]
+        if len(defs) != 1:
+            return e
+        e = defs[0].value
+    return e
+
+
+def check_spherical(ctx, R="C07.spherical"):
+    ctx.rule(
+        R,
+        "producer and consumers of Vector.sphericalCoordinates agree on the azimuth convention: the second component is "
+        "atan2(y, x) + c and every consumer uses it as `component + d` with c + d = -pi/2 (a yaw / heading is measured from the +Y axis, "
+        "anticlockwise); the third component is the elevation atan2(z, hypot(x, y)) used as it is.  A convention changed in the producer and in "
+        "some consumers only (the `facing toward` family, `beyond`, the flat orientation of a mesh surface) turns the others by 90 degrees",
+    )
+    model = ctx.model
+    prod = model.func("scenic.core.vectors", "Vector.sphericalCoordinates")
+    rets = [r for r in lib.returns_of(prod) if r.value is not None]
+    if len(rets) != 1 or not (isinstance(rets[0].value, ast.Call) and len(rets[0].value.args) == 3):
+        raise AnalysisError("shape not recognised: Vector.sphericalCoordinates does not return one three-component constructor call")
+    comps = [_local_value(prod, a) for a in rets[0].value.args]
+
+    def is_self(e, attr):
+        return isinstance(e, ast.Attribute) and isinstance(e.value, ast.Name) and e.value.id == "self" and e.attr == attr
+
+    def atan2_of(e):
+        return e.args if isinstance(e, ast.Call) and (dotted(e.func) or "").split(".")[-1] in ("atan2", "arctan2") and len(e.args) == 2 else None
+
+    c = 0.0
+    core = None
+    for sg, t in _additive_terms(comps[1]):
+        v = _const_value(t)
+        if v is not None:
+            c += sg * v
+        elif core is None and sg == 1:
+            core = t
+        else:
+            raise AnalysisError(f"shape not recognised: azimuth `{unparse(comps[1])}` of sphericalCoordinates")
+    a = atan2_of(core) if core is not None else None
+    if a is None:
+        raise AnalysisError(f"shape not recognised: azimuth `{unparse(comps[1])}` of sphericalCoordinates is not atan2(...) + constant")
+    if not (is_self(a[0], "y") and is_self(a[1], "x")):
+        ctx.finding(R, core, "sphericalCoordinates azimuth arguments", f"the azimuth is `{unparse(core)}`, not atan2(self.y, self.x): the angle is measured from / towards another axis")
+    else:
+        ctx.ok(R, core, f"azimuth = atan2(self.y, self.x) {c:+.6f}")
+    e = atan2_of(comps[2])
+    hyp = e[1] if e else None
+    ok_el = (
+        e is not None
+        and is_self(e[0], "z")
+        and isinstance(hyp, ast.Call)
+        and (dotted(hyp.func) or "").split(".")[-1] == "hypot"
+        and len(hyp.args) == 2
+        and {x.attr for x in hyp.args if isinstance(x, ast.Attribute) and isinstance(x.value, ast.Name) and x.value.id == "self"} == {"x", "y"}
+    )
+    if ok_el:
+        ctx.ok(R, comps[2], "elevation = atan2(self.z, hypot(self.x, self.y))")
+    else:
+        ctx.finding(R, rets[0], "sphericalCoordinates elevation", f"the elevation is `{unparse(comps[2])}`, not atan2(self.z, hypot(self.x, self.y))")
+    rho = comps[0]
+    if not (isinstance(rho, ast.Call) and (dotted(rho.func) or "").split(".")[-1] in ("hypot", "norm") ):
+        pass  # the radius is not part of the angle convention
+    # consumers
+    n = 0
+    for mname in sorted(model.modules_under("scenic")) if hasattr(model, "modules_under") else sorted(model._paths):
+        if not mname.startswith("scenic.") or mname.startswith("scenic.simulators"):
+            continue
+        try:
+            src = model.read(model._paths[mname])
+        except Exception:
+            continue
+        if "sphericalCoordinates" not in src:
+            continue
+        m = model.module(mname)
+        for q, fn in m.functions.items():
+            calls = [x for x in walk_local(fn) if isinstance(x, ast.Call) and isinstance(x.func, ast.Attribute) and x.func.attr == "sphericalCoordinates"]
+            if not calls or fn is prod:
+                continue
+            holders = set()
+            for cl in calls:
+                p_ = parent(cl)
+                if isinstance(p_, ast.Assign) and len(p_.targets) == 1 and isinstance(p_.targets[0], ast.Name):
+                    holders.add(p_.targets[0].id)
+                elif isinstance(p_, ast.Subscript) and p_.value is cl:
+                    pass
+                else:
+                    raise AnalysisError(f"shape not recognised: result of sphericalCoordinates() used as `{norm_text(p_, 60)}` in {mname}:{q}")
+            for sub in walk_local(fn):
+                if not isinstance(sub, ast.Subscript):
+                    continue
+                base = sub.value
+                if not (base in calls or (isinstance(base, ast.Name) and base.id in holders and isinstance(base.ctx, ast.Load))):
+                    continue
+                idx = sub.slice
+                if not (isinstance(idx, ast.Constant) and idx.value in (0, 1, 2)):
+                    raise AnalysisError(f"shape not recognised: component `{unparse(sub)}` of spherical coordinates in {mname}:{q}")
+                if idx.value == 0:
+                    continue
+                # the additive context of this use
+                top = sub
+                while isinstance(parent(top), ast.BinOp) and isinstance(parent(top).op, (ast.Add, ast.Sub)):
+                    top = parent(top)
+                d = 0.0
+                shape_ok = True
+                for sg, t in _additive_terms(top):
+                    if t is sub:
+                        if sg != 1:
+                            shape_ok = False
+                        continue
+                    v = _const_value(t)
+                    if v is None:
+                        shape_ok = False
+                    else:
+                        d += sg * v
+                n += 1
+                what = "azimuth" if idx.value == 1 else "elevation"
+                if not shape_ok:
+                    # combined with a non-constant term: a relative angle; the convention offset cancels only in differences of two azimuths
+                    others = [t for sg, t in _additive_terms(top) if t is not sub]
+                    raise AnalysisError(f"shape not recognised: {what} combined with `{', '.join(unparse(o) for o in others)}` in {mname}:{q}")
+                want = -math.pi / 2 if idx.value == 1 else 0.0
+                got = (c if idx.value == 1 else 0.0) + d
+                if abs(got - want) > 1e-9:
+                    ctx.finding(
+                        R,
+                        top,
+                        f"{q} {what} convention",
+                        (f"{mname}:{q} uses `{unparse(top)}` as a yaw / heading: with the producer's azimuth atan2(y, x) {c:+.4f} that is atan2(y, x) {got:+.4f}, "
+                         f"not atan2(y, x) - pi/2 (heading 0 is the +Y axis): this consumer is turned by {math.degrees(got - want):.0f} degrees against the others")
+                        if idx.value == 1
+                        else f"{mname}:{q} uses `{unparse(top)}` as a pitch: the elevation is offset by {d:+.4f}",
+                    )
+                else:
+                    ctx.ok(R, top, f"{mname}:{q}: {what} used as `{unparse(top)}` (total offset {got:+.4f})")
+    ctx.floor(R, n, 8, "uses of spherical components")
+
+
 def _block_of(stmt):
     p_ = parent(stmt)
     for f in ("body", "orelse", "finalbody"):
@@ -726,3 +896,4 @@ def check(ctx):
     ctx.run(check_angles)
     ctx.run(check_coercions)
     ctx.run(check_constants)
+    ctx.run(check_spherical)
